@@ -44,6 +44,11 @@ def main():
     proved = R.proof_step()
     n = 150000 if R.thorough else 3000
     sessions = list(CORPUS) + [G.gen_session(R.rng, raising=(i % 5 == 0)) for i in range(n)]
+    for i, sess in enumerate(sessions[len(CORPUS):]):
+        if i % 6 == 0 and sess["steps"]:
+            sess["steps"][R.rng.randrange(len(sess["steps"]))]["pt_reject"] = True       # (invisible to the model: it must change nothing)
+    sessions.append(S(("a", (3,)), ("{k} a", (2, 3))))
+    sessions[-1]["steps"][1]["pt_reject"] = True
     out = vf.impl("impl_array.py", {"mode": "sessions", "sessions": sessions})
     impl, cats = out["results"], out["cat_dtypes"]
     # the same sessions again in a fresh interpreter in which every (category, array type, dims) is ONE annotation object,
